@@ -299,7 +299,7 @@ def generate():
     for nm, d in (("documented_call", doc_call), ("documented_load", doc_load), ("documented_status", doc_status)):
         o.append("Definition %s : list (Z * string * string) := %s." % (nm, clist("(%d, %s, %s)" % (n, cs(k), cs(t)) for n, k, t in d)))
     txt = "\n".join(o) + "\n"
-    p = os.path.join(HERE, "coq", "Gen", "ResultMap.v")
+    p = os.path.join(os.environ.get("VERIF_COQ") or os.path.join(HERE, "coq"), "Gen", "ResultMap.v")
     os.makedirs(os.path.dirname(p), exist_ok=True)
     if not os.path.exists(p) or open(p).read() != txt:
         open(p, "w").write(txt)
